@@ -8,8 +8,16 @@ lean/PyrollModel/Gen/C05.lean: statement roles as `Solve.Shape`, the `range` bou
 every solve call of every unit of real runs - and of throw-away `Unit` subclasses playing back adversarial vector
 sequences through the REAL loop - is fed to the Lean model SolveGen.solve as carried `_old_results` + recorded vectors:
 iteration count, warned/quiet, logged index, exception kind, out-profile reuse and `_old_results` afterwards must agree;
-the generated comparison is evaluated over Float against numpy).
+the generated comparison is evaluated over Float against numpy; the real `Unit.init_solve` is run on units that already
+have an out profile and the public entries it leaves are compared, in order, with `SolveGen.initOut`).
 The oracle is written from the property text and only looks at what the real calls did.
+
+What is a violation: more iterations than the limit; a quiet end although the last two iterates differ by more than the
+precision / nothing to compare with; a warning without a returned profile; fresh vs fresh vs deep copy not bit-identical;
+the same sequence solved again with the same input raising or differing by more than WITHIN_K x precision; after an
+aborted solve: a re-entrancy mark left, the retry (cause removed) raising or differing from a fresh sequence by more than
+WITHIN_K x precision.  What is only counted (`info:*`): a used sequence solved with ANOTHER input vs a fresh one - the
+statement does not claim it (see notes/C05.md, finding 2).
 """
 import copy
 import json
@@ -31,12 +39,19 @@ RULE = ("(A) scripted units: throw-away Unit subclasses whose get_root_hook_resu
         "(two-/three-roll passes, transports, cooling pipes, rotators, nested sequences, 0-4 disk elements), 4 incoming "
         "shapes, feedback models flow stress / spread / temperature registered as extra hook implementations (removed in "
         "finally), precision and limit set through Config or per unit; every case: fresh vs fresh vs deep copy, solve twice, "
-        "deep copy of the solved sequence, a fault (7 exception types, k uniform over the clean call count of the chosen "
-        "hook, or a value missing on the incoming profile) then retry vs fresh. non-trivial = some unit needed >= 2 "
-        "iterations after its first one / a scripted history with >= 2 vectors; distinct by the rounded case description.")
+        "deep copy of the solved sequence, a fault (8 exception types, k uniform over the clean call count of the chosen "
+        "hook, or a value - flow_stress / temperature - missing on the incoming profile) then retry with the cause removed "
+        "vs fresh; (C) histories of init_solve calls with generated incoming entries (root-hook and other names, values "
+        "changing / vanishing / new) on a plain unit, a transport and a roll pass, interleaved with writes to / deletions "
+        "from the out profile. non-trivial = some unit needed >= 2 iterations after its first one / a scripted history "
+        "with >= 2 vectors / >= 2 init_solve calls; distinct by the rounded case description.")
 ASSUMPTIONS = [
     "what one loop body does to the unit (caches, sub-units, hook evaluation) is a parameter of the model (step); the "
     "correspondence feeds the vectors recorded from the real run",
+    "`abort_then_retry_*_partial` assume that the failing loop body leaves the unit's state where it found it; of the state "
+    "the core keeps across solves only `_old_results` and the public entries of the re-used out profile are modelled "
+    "(`reused_out_profile_up_to_date`); caches of the unit and its roll are re-evaluated by every loop body (not modelled), "
+    "hook implementations with a memory of their own are outside the statement",
     "contractivity of the feedback models is a hypothesis of `resolve_within_prec`; on the real code 'within precision' is "
     "checked numerically with the tolerance WITHIN_K * precision (relative), the harness's models having contraction "
     "factors well below 1/2",
@@ -514,7 +529,7 @@ def gen_case(rng):
             "via": rng.choice(["config", "config", "kwargs"])}
     ftype = rng.choice(sorted(FAULT_TYPES))
     case["fault"] = {"hook": rng.choice(FAULT_HOOKS), "type": ftype, "u": round(rng.random(), 6)}
-    if "flow_stress" not in models and rng.random() < 0.5:
+    if "flow_stress" not in models and rng.random() < 0.6:
         case["fault"] = {"missing": "flow_stress"}
     elif (models.get("flow_stress", {}).get("beta") or "temperature" in models) and rng.random() < 0.3:
         case["fault"] = {"missing": "temperature"}
